@@ -408,7 +408,7 @@ func c19Readers(c *fw.Case) {
 	}
 	steps := 15 + r.Intn(20)
 	for s := 0; s < steps; s++ {
-		op := r.Intn(9)
+		op := r.Intn(10)
 		if op == 8 && len(legacy) == 0 {
 			op = 0
 		}
@@ -516,6 +516,50 @@ func c19Readers(c *fw.Case) {
 				_ = mr.Close()
 			}
 			if !check("recordio-mmap-reader") {
+				return
+			}
+		case 9: // stacked reader over 2..4 table readers: scans through the stack and through members, optionally one
+			// member closed on its own beforehand (its second Close then reports an error) — Close of the stack must
+			// still release every member
+			n := 2 + r.Intn(3)
+			var members []sstables.SSTableReaderI
+			for i := 0; i < n; i++ {
+				rd, err := sstables.NewSSTableReader(sstables.ReadBasePath(tdir), sstables.ReadWithKeyComparator(skiplist.BytesComparator{}))
+				if err != nil {
+					c.Violate("resources/reader-open-error", "%v", err)
+					return
+				}
+				members = append(members, rd)
+			}
+			super := sstables.NewSuperSSTableReader(members, skiplist.BytesComparator{})
+			for u := 0; u < 1+r.Intn(3); u++ {
+				var it sstables.SSTableIteratorI
+				var err error
+				if r.Intn(2) == 0 {
+					it, err = super.Scan()
+				} else {
+					it, err = members[r.Intn(n)].Scan()
+				}
+				if err == nil {
+					for i := 0; i < r.Intn(8); i++ {
+						if _, _, err := it.Next(); err != nil {
+							break
+						}
+					}
+				}
+				c.Obs("abandoned_scans", 1)
+			}
+			what := "stacked-reader"
+			if r.Intn(2) == 0 {
+				_ = members[r.Intn(n-1)].Close() // never the last one: members after it must still be released
+				what += "+member-closed-before"
+				c.Obs("stacked_readers_with_a_member_closed_before", 1)
+			}
+			_ = super.Close() // an error for the member that was closed before is fine
+			ok := check(what)
+			runtime.KeepAlive(members) // (descriptors and mappings carry finalizers: keep them reachable until counted)
+			runtime.KeepAlive(super)
+			if !ok {
 				return
 			}
 		case 8: // legacy-format table: full scans (complete / abandoned / untouched), then Close
